@@ -9,11 +9,20 @@ let estr (e : mentry) =
 let run (id : string) (_hdr : string list) (lines : string list list) (out : string -> unit) =
   let m = ref mt_empty in
   let pr x = out (id ^ " " ^ x) in
+  let h = ref (h_new mt_empty) in
+  let cur () = pr (match !h.h_cur with None -> "H invalid" | Some e -> "H " ^ estr e) in
   Stdlib.List.iter (fun l ->
       match l with
       | ["put"; k; v; s] -> m := mt_put !m (bytes_of_token k) (bytes_of_token v) (n_of_string s)
       | ["del"; k; s] -> m := mt_del !m (bytes_of_token k) (n_of_string s)
       | ["imm"] -> m := mt_set_imm !m
+      | ["hnew"] -> h := h_new !m
+      | ["hfirst"] -> h := h_first !m !h; cur ()
+      | ["hseek"; t] -> h := h_seek (bytes_of_token t) !m !h; cur ()
+      | ["hnext"] -> (match !h.h_cur with None -> pr "H invalid" | Some _ -> h := h_next !m !h; cur ())
+      | ["hdrain"] ->
+        let n = ref 0 in
+        while !h.h_cur <> None && !n < 100000 do h := h_next !m !h; cur (); incr n done
       | ["get"; k] ->
         pr ("G " ^ (match mt_get !m (bytes_of_token k) with
             | None -> "absent" | Some None -> "deleted" | Some (Some v) -> "v:" ^ render v))
